@@ -31,8 +31,13 @@ PlanFill(p, n) ==
 (* C05 describes fill_bytes(n) as above (so a tail of 1..4 bytes takes a pending half), C16 says *)
 (* fill_bytes discards a pending half and collects afresh.  They differ only for n in 1..4 with *)
 (* a half pending; that corner is left open: both plans are admitted.                           *)
+(* fill_bytes(0) touches no word; whether a pending half survives it is left open as well (C05:     *)
+(* "an immediately following next_u32"): DropStep hands out nothing and clears the flag.           *)
+DropStep == [collect |-> FALSE, part |-> "drop", take |-> 0, pend |-> FALSE]
 PlanFillSet(p, n) ==
-  IF p /\ n \in 1..4 THEN {PlanFill(p, n), <<U32Step(FALSE, n)>>} ELSE {PlanFill(p, n)}
+  IF p /\ n \in 1..4 THEN {PlanFill(p, n), <<U32Step(FALSE, n)>>}
+  ELSE IF p /\ n = 0 THEN {PlanFill(p, n), <<DropStep>>}
+  ELSE {PlanFill(p, n)}
 PendAfter(p, plan) == IF plan = <<>> THEN p ELSE plan[Len(plan)].pend
 ClonePend == FALSE        \* the pending half stays with the original
 
@@ -60,8 +65,9 @@ Conflicts(t, part, h) ==
 Run(g, plan) ==
   FoldLeft(LAMBDA a, s :
              LET t  == IF s.collect THEN a.ntok + 1 ELSE a.tok
-             IN [tok |-> t, pend |-> s.pend, handed |-> a.handed \cup {<<t, s.part>>},
-                 dup |-> a.dup \/ Conflicts(t, s.part, a.handed) \/ t = 0,
+             IN [tok |-> t, pend |-> s.pend,
+                 handed |-> IF s.part = "drop" THEN a.handed ELSE a.handed \cup {<<t, s.part>>},
+                 dup |-> a.dup \/ (s.part # "drop" /\ (Conflicts(t, s.part, a.handed) \/ t = 0)),
                  ntok |-> IF s.collect THEN a.ntok + 1 ELSE a.ntok],
            [tok |-> tok[g], pend |-> pend[g], handed |-> handed, dup |-> dup, ntok |-> ntok], plan)
 
